@@ -8,7 +8,7 @@ p = [json.loads(l) for l in open(os.path.join(V, 'properties.jsonl'))]
 p = [x for x in p if x['id'] == pid][0]
 import glob
 round2 = '--round2' in sys.argv
-suffix = 'b' if round2 else ''
+suffix = 'd' if '--round4' in sys.argv else ('b' if round2 else '')
 avoid = ''
 if round2:
     prev = []
